@@ -422,6 +422,9 @@ func Fill(r *rand.Rand, t *abs.TD, v reflect.Value, budget int) {
 				if r.Intn(4) != 0 {
 					Fill(r, t.Key, k, budget-1)
 				}
+				if k.Type() == reflect.TypeOf(time.Time{}) {
+					k.Set(reflect.ValueOf(k.Interface().(time.Time).UTC())) // time keys compare by location too
+				}
 				if r.Intn(4) != 0 {
 					Fill(r, t.Val, e, budget-1)
 				}
@@ -435,6 +438,7 @@ func Fill(r *rand.Rand, t *abs.TD, v reflect.Value, budget int) {
 				Fill(r, t.F[i].T, abs.Fld(v, i), budget-1)
 			}
 		}
+	case "unsup":
 	default:
 		panic("Fill kind " + t.K)
 	}
